@@ -364,6 +364,8 @@ func jsonDocs(c *oracleCtx) []string {
 	ws := []string{"", " ", "\n\t\r "}
 	scalars := []string{"null", "true", "false", "0", "-0", "1", "-1", "10", "1E5", "1e+5", "1e-5", "1.0", "0.5", "-1.5e3", "9223372036854775807", "9223372036854775808", "-9223372036854775808", "12345678901234567", "1.7976931348623157e308", "0.1e1",
 		`""`, `"a"`, `"\""`, `"\\"`, `"\/"`, `"\b\f\n\r\t"`, `"\u0041"`, `"\u00e9"`, `"\uD83D\uDE00"`, `"\ud83d\ude00"`, `" "`, `"é"`, `"` + "\uFFFD" + `"`, `"😀"`, `"a\\\"b"`, `"[{,:}]"`, `"\u0000"`, `"/"`, `"\u2028"`,
+		`"\udbff\udfff"`, `"\udbff\udc00"`, `"\udbc0\udc00"`, `"\ud800\udc00"`, `"\udbfe\udfff"`, `"\ud83d\udfff"`, `"\udb40\udc01"`,
+		"\"\x7f\"", "\"a\u0080b\"", "\"\u0085\"", "\"\u009f\"", "\"\u00a0\"", "\"\u2028\"", "\"\ufeff\"",
 		`"C:\\temp\\new\u00e9"`, `"\\u0041 and \u0042"`, `"\\n\u000a"`, `"\\\\\u005c"`, `"a\u0001"`, `"\u001b"`, `"x\\"`, `"\\/\/"`, `"\t\\t\u0009"`,
 		"9007199254740993", "1234567890123456789", "-9007199254740993", "4611686018427387905", "123456789012345678", "1e2", "100", "0e0", "0.0", "-0.0", "2E+2",
 		`"\ud800"`, `"\ud800\u0041"`, `"\udc00\ud83d\ude00"`, `"\ud800x"`, `"x\udfff"`, `"\ud83d\u00e9"`}
@@ -373,7 +375,7 @@ func jsonDocs(c *oracleCtx) []string {
 			docs = append(docs, "["+w+s+w+"]", "{"+w+`"k"`+w+":"+w+s+w+"}", "["+s+","+w+s+"]", `{"a":`+s+`,"a":1}`, `{"a":[`+s+`],"b":{"c":`+s+`}}`)
 		}
 	}
-	keys := []string{`""`, `"a b"`, `"\""`, `"\/"`, `"\u0041"`, `"\uD83D\uDE00"`, `"é"`, `"a.b#c"`}
+	keys := []string{"\"k\x7f\"", "\"\u0085\"", `"\udbff\udfff"`, `"a\\\\"`, `""`, `"a b"`, `"\""`, `"\/"`, `"\u0041"`, `"\uD83D\uDE00"`, `"é"`, `"a.b#c"`}
 	for _, k := range keys {
 		docs = append(docs, "{"+k+":1}", "{"+k+":{"+k+":[]}}")
 	}
